@@ -13,6 +13,8 @@ print("# Seeded changes x checks\n")
 print("Produced by `tools/matrix.sh`: every seeded change is applied to a scratch copy of `/repo` (never to `/repo` itself) and "
       "every check's quick command is run against the copy (`VERIF_REPO`).  `1` = VIOLATION with a public-API witness in the "
       "replay file, `1n` = VIOLATION whose line ends with no-failing-input-found, `1b` = the changed code left the verifier's language subset (checker error) and the bounded stand-in found the failing input, `0` = exit 0, `3` = checker error, `2` = undecided.  "
+      "`–` = not run: the check reads none of the functions (nor module-level code of the files) the change touches, so its "
+      "outcome is the one on the unchanged tree by construction (`tools/matrix_plan.py`).  "
       "The diagonal (the property the change was written against) is in bold.\n")
 print("| change | " + " | ".join(props) + " |")
 print("|---|" + "|".join(["---"] * len(props)) + "|")
@@ -27,8 +29,8 @@ for s in sorted(rows):
             cells.append("**%s**" % v)
             own_ok += 1 if v.startswith("1") else 0
         else:
-            cells.append(v if v != "0" else "·")
-            if v != "0":
+            cells.append("–" if v == "-" else (v if v != "0" else "·"))
+            if v not in ("0", "-"):
                 cross.append((s, p, v))
     print("| %s | %s |" % (s, " | ".join(cells)))
 print("\n%d of %d changes are reported by the check of the property they were written against.\n" % (own_ok, len(rows)))
